@@ -5,28 +5,40 @@ Part A (bad-signature evidence), on the bridge model (`Model/Bridge.lean`).  "Is
 executable state: a checkpoint is issued when it is the signing bytes (`Batch.ckpt`) of a batch that is
 open in some state of the history.  Every such checkpoint is archived at once and for ever, evidence can
 only jail for a checkpoint that is not archived, and the jailed validator is the one that *registered*
-the key the signature recovers to (`St.keys`, written by `registerKey`).
+the key the signature recovers to (`St.keys`, written by `registerKey`) — registered at the time the
+evidence is processed.  The op language `Op13` has an external-jailing op `jail vs`, so every part-A
+theorem holds whatever else writes the jailed set.
 
-Part B (prune-time jailing): `pruneJail` (the decision of `jailValidatorsWhichMissedAttestation`) and a
-small queue machine (`PSt`: messages with their evidence, a jailed set; ops: put / add evidence / prune).
+Part B (prune-time jailing): `pruneJail` (the decision of `jailValidatorsWhichMissedAttestation`),
+`pruneOutcome` (with `jailValidatorsIfNecessary`'s early exits), and the WORLD machine
+(`Paloma.C13.World`): the bridge state together with the real consensus-queue model
+(`Model/Queue.lean`, every `Paloma.Queue.Op`) and `PruneJob`.  A prune reads the message, its evidence,
+its report flags and the current snapshot from the stored queue state and writes the bridge model's
+jailed set; `trace13` projects world histories to part-A histories.
 -/
 import PalomaModel.Props.C01
 import PalomaModel.Gen.Atomicity
 import PalomaModel.Model.Libcons
+import PalomaModel.Model.Queue
 
 namespace Paloma.Bridge
 open List
 
-/-- bridge operations, evidence submission by anybody, key (re-)registration by a validator -/
+/-- bridge operations, evidence submission by anybody, key (re-)registration by a validator, and
+`jail vs`: validators jailed by ANY mechanism other than bad-signature evidence (the prune-time jailing
+of part B — the world machine below feeds it in —, keep-alive jailing, staking slashing).  The list is
+arbitrary, so every part-A theorem holds whatever the rest of the chain does to the jailed set. -/
 inductive Op13 where
   | bridge (op : Op)
   | evidence (c : Ckpt) (key : Nat)
   | register (v key : Nat)
+  | jail (vs : List Nat)
 
 def apply13 (s : St) : Op13 → St
   | .bridge op => apply s op
   | .evidence c key => (evidence s c key).1
   | .register v key => (registerKey s v key).1
+  | .jail vs => { s with jailed := vs ++ s.jailed }
 
 def run13 (ops : List Op13) : St := ops.foldl apply13 St.init
 
@@ -39,9 +51,10 @@ theorem run13_append (a b : List Op13) : run13 (a ++ b) = b.foldl apply13 (run13
 theorem run13_snoc (a : List Op13) (op : Op13) : run13 (a ++ [op]) = apply13 (run13 a) op := by
   rw [run13_append]; rfl
 
-/-- lifting a step relation to histories with evidence and registration -/
+/-- lifting a step relation to histories with evidence, registration and external jailing -/
 theorem StepRel.foldl13 {R : St → St → Prop} (hR : StepRel R)
     (hev : ∀ s c key, R s (evidence s c key).1) (hreg : ∀ s v key, R s (registerKey s v key).1)
+    (hjail : ∀ (s : St) (vs : List Nat), R s { s with jailed := vs ++ s.jailed })
     (ops : List Op13) : ∀ s, R s (ops.foldl apply13 s) := by
   induction ops with
   | nil => intro s; exact hR.refl s
@@ -52,6 +65,7 @@ theorem StepRel.foldl13 {R : St → St → Prop} (hR : StepRel R)
     | bridge op => exact hR.apply s op
     | evidence c key => exact hev s c key
     | register v key => exact hreg s v key
+    | jail vs => exact hjail s vs
 
 theorem evidence_cases (s : St) (c : Ckpt) (key : Nat) :
     ((evidence s c key).1 = s) ∨
@@ -69,17 +83,20 @@ theorem evidence_cases (s : St) (c : Ckpt) (key : Nat) :
       · rename_i hj
         exact Or.inr ⟨by simpa using harch, v, hv, by simpa using hj, rfl⟩
 
+/-- exact case analysis of a registration, result flag included: refused (state unchanged) or accepted
+(the validator is not jailed, nobody else holds the key, the validator's entry is replaced) -/
 theorem registerKey_cases (s : St) (v key : Nat) :
-    ((registerKey s v key).1 = s) ∨
-    ((s.keys.any (fun p => p.1 != v && p.2 == key)) = false ∧
-      (registerKey s v key).1 = { s with keys := setKey s.keys v key }) := by
+    ((registerKey s v key).1 = s ∧ (registerKey s v key).2 = .rejected) ∨
+    (v ∉ s.jailed ∧ (s.keys.any (fun p => p.1 != v && p.2 == key)) = false ∧
+      (registerKey s v key).1 = { s with keys := setKey s.keys v key } ∧ (registerKey s v key).2 = .ok) := by
   unfold registerKey
   split
-  · exact Or.inl rfl
-  · split
-    · exact Or.inl rfl
+  · exact Or.inl ⟨rfl, rfl⟩
+  · rename_i hj
+    split
+    · exact Or.inl ⟨rfl, rfl⟩
     · rename_i h
-      exact Or.inr ⟨Bool.eq_false_iff.mpr h, rfl⟩
+      exact Or.inr ⟨by simpa using hj, Bool.eq_false_iff.mpr h, rfl, rfl⟩
 
 /-! ### the archive only grows, and holds the checkpoint of every open batch -/
 
@@ -118,11 +135,12 @@ theorem archSub_stepRel : StepRel ArchSub where
   addClaim := by intro s n cl c hc; rw [(addClaim_other s n cl).2.2.1]; exact hc
 
 theorem archSub_foldl13 (ops : List Op13) (s : St) : ArchSub s (ops.foldl apply13 s) := by
-  refine StepRel.foldl13 archSub_stepRel ?_ ?_ ops s
+  refine StepRel.foldl13 archSub_stepRel ?_ ?_ ?_ ops s
   · intro s c key x hx
     rcases evidence_cases s c key with h | ⟨_, v, _, _, h⟩ <;> rw [h] <;> exact hx
   · intro s v key x hx
-    rcases registerKey_cases s v key with h | ⟨_, h⟩ <;> rw [h] <;> exact hx
+    rcases registerKey_cases s v key with ⟨h, _⟩ | ⟨_, _, h, _⟩ <;> rw [h] <;> exact hx
+  · intro s vs x hx; exact hx
 
 /-- every open batch's current signing bytes are archived -/
 def OpenArchived (s : St) : Prop := ∀ b ∈ s.batches, b.ckpt ∈ s.archive
@@ -184,11 +202,12 @@ theorem openArchived_stepRel : StepRel (Preserves OpenArchived) where
   addClaim := fun s n cl hp => openArchived_congr hp (addClaim_other s n cl).2.1 (addClaim_other s n cl).2.2.1
 
 theorem openArchived_run13 (ops : List Op13) : OpenArchived (run13 ops) := by
-  refine StepRel.foldl13 openArchived_stepRel ?_ ?_ ops St.init (by intro b hb; simp [St.init] at hb)
+  refine StepRel.foldl13 openArchived_stepRel ?_ ?_ ?_ ops St.init (by intro b hb; simp [St.init] at hb)
   · intro s c key hp
     rcases evidence_cases s c key with h | ⟨_, v, _, _, h⟩ <;> rw [h] <;> exact hp
   · intro s v key hp
-    rcases registerKey_cases s v key with h | ⟨_, h⟩ <;> rw [h] <;> exact hp
+    rcases registerKey_cases s v key with ⟨h, _⟩ | ⟨_, _, h, _⟩ <;> rw [h] <;> exact hp
+  · intro s vs hp; exact hp
 
 /-! ### bridge operations never touch the jailed set or the key registry -/
 
@@ -206,21 +225,39 @@ theorem frame_keys : StepRel (fun s s' => s'.keys = s.keys) :=
     (fun _ _ _ _ _ => rfl) (fun _ _ => rfl) (fun _ _ _ _ => rfl)
     (fun s tok c => (setTax_other s tok c).2.2.2.1) (fun _ _ _ => rfl) (fun s n c => (addClaim_other s n c).2.2.2.1)
 
-/-- the jailed set is written by an evidence op only: the looked-up holder of the signing key is
-    prepended, and only when the checkpoint is not archived -/
+/-- the jailed set is written by an evidence op (the looked-up holder of the signing key is
+    prepended, and only when the checkpoint is not archived) and by an external `jail` op, by nothing else -/
 theorem apply13_jailed (s : St) (op : Op13) :
     (apply13 s op).jailed = s.jailed ∨
-    ∃ c key v, op = .evidence c key ∧ c ∉ s.archive ∧ lookupKey s.keys key = some v ∧
-      (apply13 s op).jailed = v :: s.jailed := by
+    (∃ c key v, op = .evidence c key ∧ c ∉ s.archive ∧ lookupKey s.keys key = some v ∧
+      (apply13 s op).jailed = v :: s.jailed) ∨
+    (∃ vs, op = .jail vs ∧ (apply13 s op).jailed = vs ++ s.jailed) := by
   cases op with
   | bridge op => exact Or.inl (frame_jailed.apply s op)
   | evidence c key =>
     rcases evidence_cases s c key with h | ⟨hc, v, hv, _, h⟩
     · left; simp only [apply13, h]
-    · right; exact ⟨c, key, v, rfl, hc, hv, by simp only [apply13, h]⟩
+    · right; left; exact ⟨c, key, v, rfl, hc, hv, by simp only [apply13, h]⟩
   | register v key =>
     left
-    rcases registerKey_cases s v key with h | ⟨_, h⟩ <;> simp only [apply13, h]
+    rcases registerKey_cases s v key with ⟨h, _⟩ | ⟨_, _, h, _⟩ <;> simp only [apply13, h]
+  | jail vs => right; right; exact ⟨vs, rfl, rfl⟩
+
+/-- the key registry is written by an accepted `register` op only -/
+theorem apply13_keys (s : St) (op : Op13) :
+    (apply13 s op).keys = s.keys ∨
+    ∃ v key, op = .register v key ∧ (registerKey s v key).2 = .ok ∧
+      (apply13 s op).keys = setKey s.keys v key := by
+  cases op with
+  | bridge op => exact Or.inl (frame_keys.apply s op)
+  | evidence c key =>
+    left
+    rcases evidence_cases s c key with h | ⟨_, v, _, _, h⟩ <;> simp only [apply13, h]
+  | register v key =>
+    rcases registerKey_cases s v key with ⟨h, _⟩ | ⟨_, _, h, hok⟩
+    · left; simp only [apply13, h]
+    · right; exact ⟨v, key, rfl, hok, by simp only [apply13, h]⟩
+  | jail vs => exact Or.inl rfl
 
 /-! ### the key registry: a key has at most one holder -/
 
@@ -260,7 +297,7 @@ theorem mem_setKey {keys : List (Nat × Nat)} {v k : Nat} {x : Nat × Nat} (h : 
 def KeysUnique (s : St) : Prop := ∀ p ∈ s.keys, ∀ q ∈ s.keys, p.2 = q.2 → p.1 = q.1
 
 theorem keysUnique_register (s : St) (v key : Nat) (h : KeysUnique s) : KeysUnique (registerKey s v key).1 := by
-  rcases registerKey_cases s v key with h1 | ⟨hany, h1⟩ <;> rw [h1]
+  rcases registerKey_cases s v key with ⟨h1, _⟩ | ⟨_, hany, h1, _⟩ <;> rw [h1]
   · exact h
   · have hno : ∀ q ∈ s.keys, q.2 = key → q.1 = v := by
       intro q hq hk
@@ -292,6 +329,7 @@ theorem keysUnique_run13 (ops : List Op13) : KeysUnique (run13 ops) := by
       rcases evidence_cases s c key with h1 | ⟨_, v, _, _, h1⟩ <;>
         (unfold KeysUnique; simp only [apply13]; rw [h1]; exact h)
     | register v key => exact keysUnique_register s v key h
+    | jail vs => exact h
 
 end Lemmas
 
@@ -412,7 +450,7 @@ theorem foldl_addEvidence_nodup (subs : List Evidence) : ∀ (init : List Eviden
 def attestedShares (s : Snapshot) (evs : List Nat) : Nat :=
   ((s.vals.filter (fun p => evs.contains p.1)).map (·.2)).sum
 
-theorem lookup_of_nodup {vs : List (Nat × Nat)} (hnd : (vs.map (·.1)).Nodup) {p : Nat × Nat} (hp : p ∈ vs) :
+theorem lookup_of_nodup13 {vs : List (Nat × Nat)} (hnd : (vs.map (·.1)).Nodup) {p : Nat × Nat} (hp : p ∈ vs) :
     lookup vs p.1 = some p.2 := by
   induction vs with
   | nil => cases hp
@@ -426,7 +464,7 @@ theorem lookup_of_nodup {vs : List (Nat × Nat)} (hnd : (vs.map (·.1)).Nodup) {
       simp only [List.find?_cons, this]
       exact ih hc.2 hm
 
-theorem lookup_none_of_not_mem {vs : List (Nat × Nat)} {a : Nat} (h : a ∉ vs.map (·.1)) : lookup vs a = none := by
+theorem lookup_none_of_not_mem13 {vs : List (Nat × Nat)} {a : Nat} (h : a ∉ vs.map (·.1)) : lookup vs a = none := by
   unfold lookup
   rw [List.find?_eq_none.mpr]
   · rfl
@@ -435,21 +473,21 @@ theorem lookup_none_of_not_mem {vs : List (Nat × Nat)} {a : Nat} (h : a ∉ vs.
     simpa using this
 
 /-- shares of the entries of `l` whose validator is in `evs` -/
-def shareSum (evs : List Nat) (l : List (Nat × Nat)) : Nat :=
+def shareSum13 (evs : List Nat) (l : List (Nat × Nat)) : Nat :=
   ((l.filter (fun q => evs.contains q.1)).map (·.2)).sum
 
-theorem shareSum_nil (evs : List Nat) : shareSum evs [] = 0 := rfl
+theorem shareSum13_nil (evs : List Nat) : shareSum13 evs [] = 0 := rfl
 
-theorem shareSum_cons (evs : List Nat) (x : Nat × Nat) (xs : List (Nat × Nat)) :
-    shareSum evs (x :: xs) = (if x.1 ∈ evs then x.2 else 0) + shareSum evs xs := by
-  unfold shareSum
+theorem shareSum13_cons (evs : List Nat) (x : Nat × Nat) (xs : List (Nat × Nat)) :
+    shareSum13 evs (x :: xs) = (if x.1 ∈ evs then x.2 else 0) + shareSum13 evs xs := by
+  unfold shareSum13
   by_cases h : x.1 ∈ evs
   · have : evs.contains x.1 = true := by simpa using h
     simp [List.filter_cons, this, h]
   · have : evs.contains x.1 = false := by simpa using h
     simp [List.filter_cons, this, h]
 
-theorem lookup_cons (x : Nat × Nat) (xs : List (Nat × Nat)) (a : Nat) :
+theorem lookup_cons13 (x : Nat × Nat) (xs : List (Nat × Nat)) (a : Nat) :
     lookup (x :: xs) a = if x.1 = a then some x.2 else lookup xs a := by
   unfold lookup
   by_cases h : x.1 = a
@@ -457,20 +495,20 @@ theorem lookup_cons (x : Nat × Nat) (xs : List (Nat × Nat)) (a : Nat) :
   · have : (x.1 == a) = false := by simpa using h
     simp [List.find?_cons, this, h]
 
-theorem shareSum_split (a : Nat) (as : List Nat) (ha : a ∉ as) : ∀ (l : List (Nat × Nat)), (l.map (·.1)).Nodup →
-    shareSum (a :: as) l = (lookup l a).getD 0 + shareSum as l := by
+theorem shareSum13_split (a : Nat) (as : List Nat) (ha : a ∉ as) : ∀ (l : List (Nat × Nat)), (l.map (·.1)).Nodup →
+    shareSum13 (a :: as) l = (lookup l a).getD 0 + shareSum13 as l := by
   intro l
   induction l with
-  | nil => intro _; simp [shareSum_nil, lookup]
+  | nil => intro _; simp [shareSum13_nil, lookup]
   | cons x xs ih =>
     intro hx
     have hxc := List.nodup_cons.mp (by simpa only [List.map_cons] using hx)
     have ih' := ih hxc.2
-    rw [shareSum_cons, shareSum_cons, lookup_cons, ih']
+    rw [shareSum13_cons, shareSum13_cons, lookup_cons13, ih']
     by_cases hxa : x.1 = a
     · have hnot : a ∉ xs.map (·.1) := by rw [← hxa]; exact hxc.1
       have hnas : x.1 ∉ as := by rw [hxa]; exact ha
-      rw [lookup_none_of_not_mem hnot]
+      rw [lookup_none_of_not_mem13 hnot]
       simp [hxa, ha]
     · have hmem : x.1 ∈ a :: as ↔ x.1 ∈ as := by simp [hxa]
       by_cases hin : x.1 ∈ as
@@ -493,8 +531,8 @@ theorem foundShares_sum_eq (vs : List (Nat × Nat)) (t : Nat) (hnd : (vs.map (·
     intro had
     have hc := List.nodup_cons.mp had
     have ih' := ih hc.2
-    have hs := shareSum_split a as hc.1 vs hnd
-    unfold shareSum at hs
+    have hs := shareSum13_split a as hc.1 vs hnd
+    unfold shareSum13 at hs
     unfold foundShares attestedShares at *
     simp only [Snapshot.share?] at *
     rw [hs, ← ih']
@@ -507,181 +545,514 @@ theorem foundShares_sum_eq (vs : List (Nat × Nat)) (t : Nat) (hnd : (vs.map (·
       have hl' : Snapshot.share? ⟨vs, t⟩ a = some sh := hl
       simp [hl']
 
+/-- the same for any snapshot value -/
+theorem foundShares_sum_eq' (s : Snapshot) (hnd : (s.vals.map (·.1)).Nodup) (evs : List Nat) (hev : evs.Nodup) :
+    (foundShares s evs).sum = attestedShares s evs :=
+  foundShares_sum_eq s.vals s.total hnd evs hev
+
 end Lemmas
 
-/-! ### a small queue machine around `pruneOutcome`: messages with their evidence, a jailed set -/
+end Paloma.Libcons
 
-structure PSt where
-  /-- message id ↦ evidence held (`QueuedSignedMessage.Evidence`) -/
-  msgs : List (Nat × List Evidence)
-  jailed : List Nat
+/-! ## The world machine: bridge state + the real consensus-queue model + prune-time jailing
 
-def PSt.init : PSt := { msgs := [], jailed := [] }
+One jailed set (`St.jailed` of the bridge model — the set `evidence` and `registerKey` read and write),
+the queue of `Model/Queue.lean` with all of its operations, and `PruneJob`.  Nothing about a prune is
+an input any more: the message, its evidence, its report flags and the snapshot are what the queue
+state holds at that moment. -/
+namespace Paloma.C13
+open Paloma.Bridge (St Ckpt Op13 apply13 run13 lookupKey registerKey)
+open Paloma.Libcons (verifyEvidence addEvidence pruneOutcome pruneJail attestedShares foundShares)
+open Paloma.Queue (Item State Snap getItem setItem libSnap)
 
-def PSt.evidenceOf (s : PSt) (id : Nat) : Option (List Evidence) := (s.msgs.find? (fun m => m.1 == id)).map (·.2)
+structure World where
+  br : St
+  q  : State
 
-inductive POp where
-  /-- a message enters the queue (ids are allocated by the queue: an id in use is not reused) -/
-  | put (id : Nat)
-  /-- `MsgAddEvidence` by validator `e.1` with proof hash `e.2` -/
-  | evidence (id : Nat) (e : Evidence)
-  /-- `PruneJob`: `delivered` = the message carries public-access / error data, `snap` = the current snapshot -/
-  | prune (id : Nat) (delivered : Bool) (snap : Snapshot)
+def World.init : World := ⟨St.init, {}⟩
 
-def pstep (s : PSt) : POp → PSt
-  | .put id => if s.msgs.any (fun m => m.1 == id) then s else { s with msgs := s.msgs ++ [(id, [])] }
-  | .evidence id e => { s with msgs := s.msgs.map (fun m => if m.1 == id then (m.1, addEvidence m.2 e) else m) }
-  | .prune id delivered snap =>
-    match s.evidenceOf id with
-    | none => s
-    | some evs => { msgs := s.msgs.filter (fun m => !(m.1 == id)),
-                    jailed := pruneOutcome delivered snap evs ++ s.jailed }
+inductive WOp where
+  /-- any bridge operation (send, cancel, build, end-block with estimates / time-outs, claims, …) -/
+  | bridge (op : Paloma.Bridge.Op)
+  /-- `MsgSubmitBadSignatureEvidence`: checkpoint of the submitted batch, key the signature recovers to -/
+  | evidence (c : Ckpt) (key : Nat)
+  /-- remote key (re-)registration -/
+  | register (v key : Nat)
+  /-- ANY operation of the consensus-queue model: put, enqueue, sign, estimates, end-block election,
+      `setPublic`, `setError`, `addEvidence`, `remove`, `setEnv` (= a new current snapshot), batches, … -/
+  | queue (op : Paloma.Queue.Op)
+  /-- `PruneJob` on message `id` -/
+  | prune (id : Nat)
 
-def prun (ops : List POp) : PSt := ops.foldl pstep PSt.init
+/-- whom `PruneJob` jails for the stored message `it` in queue state `q`: `delivered` is DERIVED from
+the stored report flags (`GetPublicAccessData() != nil || GetErrorData() != nil`), the snapshot is the
+STORED current snapshot (`Env.snapshot`, written by `Queue.Op.setEnv`), the evidence is what the queue
+item holds (written by `Queue.Op.addEvidence` through `addEvidence`).  No snapshot stored: nobody is
+jailed.  (In the Go code `GetCurrentSnapshot` then returns `(nil, nil)` and `VerifyEvidence` dereferences
+the nil snapshot: the end-blocker panics and commits nothing, so nobody is jailed there either; had the
+provider returned an error, `r == nil` makes `jailValidatorsWhichMissedAttestation` return at once.  The
+model carries on and removes the message — a divergence outside the property's subject.) -/
+def victims (q : State) (it : Item) : List Nat :=
+  match q.env.snapshot with
+  | none => []
+  | some snap => pruneOutcome (it.pub || it.err) (libSnap snap) it.evidence
 
-section Lemmas2
+/-- one step of the world.  `prune id`: message not found ⇒ `jailValidatorsIfNecessary` fails on
+`GetMsgByID`, `DeleteJob` fails, nothing changes; otherwise the victims are added to the bridge model's
+jailed set and the message is removed (`DeleteJob` = `Queue.remove`). -/
+def wstep (w : World) : WOp → World
+  | .bridge op => { w with br := Paloma.Bridge.apply w.br op }
+  | .evidence c key => { w with br := (Paloma.Bridge.evidence w.br c key).1 }
+  | .register v key => { w with br := (registerKey w.br v key).1 }
+  | .queue op => { w with q := Paloma.Queue.apply w.q op }
+  | .prune id =>
+    match getItem w.q.queue id with
+    | none => w
+    | some it => { br := { w.br with jailed := victims w.q it ++ w.br.jailed },
+                   q := (Paloma.Queue.remove w.q id).1 }
 
-theorem prun_snoc (a : List POp) (op : POp) : prun (a ++ [op]) = pstep (prun a) op := by
-  unfold prun; rw [List.foldl_append]; rfl
+def wrun (ops : List WOp) : World := ops.foldl wstep World.init
 
-/-- ids in the queue are distinct -/
-theorem pstep_ids_nodup (s : PSt) (op : POp) (h : (s.msgs.map (·.1)).Nodup) : ((pstep s op).msgs.map (·.1)).Nodup := by
-  cases op with
-  | put id =>
-    simp only [pstep]
-    split
-    · exact h
-    · rename_i hany
-      simp only [List.map_append, List.map_cons, List.map_nil]
-      refine List.nodup_append.mpr ⟨h, by simp, ?_⟩
-      intro a ha b hb
-      simp only [List.mem_singleton] at hb
-      subst hb
-      intro hab; subst hab
-      apply hany
-      rcases List.mem_map.mp ha with ⟨x, hx, rfl⟩
-      exact List.any_eq_true.mpr ⟨x, hx, by simp⟩
-  | evidence id e =>
-    simp only [pstep]
-    have : (s.msgs.map (fun m => if m.1 == id then (m.1, addEvidence m.2 e) else m)).map (·.1) = s.msgs.map (·.1) := by
+/-- projection of one world step to the part-A op language: queue ops are invisible, a prune is an
+external `jail` of its victims -/
+def trace1 (w : World) : WOp → List Op13
+  | .bridge op => [.bridge op]
+  | .evidence c key => [.evidence c key]
+  | .register v key => [.register v key]
+  | .queue _ => []
+  | .prune id =>
+    match getItem w.q.queue id with
+    | none => []
+    | some it => [.jail (victims w.q it)]
+
+/-- projection of a world history (from world state `w`) to a part-A history -/
+def trace13 (w : World) : List WOp → List Op13
+  | [] => []
+  | op :: rest => trace1 w op ++ trace13 (wstep w op) rest
+
+/-! ### queue steps: shape of every `Paloma.Queue.Op` -/
+
+/-- `it'` continues `it`: same id, and the evidence is unchanged or one `addEvidence` was applied -/
+def ItemSucc (it it' : Item) : Prop :=
+  it'.id = it.id ∧ (it'.evidence = it.evidence ∨ ∃ e, it'.evidence = addEvidence it.evidence e)
+
+/-- queue invariant: ids were all handed out by the counter, and are pairwise distinct -/
+def QInv (s : State) : Prop := (∀ it ∈ s.queue, it.id ≤ s.nextId) ∧ (s.queue.map (·.id)).Nodup
+
+/-- every message holds at most one proof per validator -/
+def EvNodup (s : State) : Prop := ∀ it ∈ s.queue, (it.evidence.map (·.1)).Nodup
+
+/-- the uniform shape of a queue step: the new queue is the old one, filtered by `p` (an item is dropped
+only if `rm` names its id), every surviving item continued (`ItemSucc`) through `f`, followed by fresh
+items whose ids lie above the old counter and which hold no evidence.  The counter never decreases. -/
+def QShape (s s' : State) (rm : Option Nat) : Prop :=
+  ∃ (p : Item → Bool) (f : Item → Item) (fresh : List Item),
+    s'.queue = (s.queue.filter p).map f ++ fresh ∧ s.nextId ≤ s'.nextId ∧
+    (∀ it ∈ s.queue, ItemSucc it (f it)) ∧
+    (∀ it ∈ s.queue, p it = false → rm = some it.id) ∧
+    (∀ x ∈ fresh, s.nextId < x.id ∧ x.id ≤ s'.nextId ∧ x.evidence = []) ∧
+    (fresh.map (·.id)).Nodup
+
+/-- the only queue op that takes a message out of the queue -/
+def removedBy : Paloma.Queue.Op → Option Nat
+  | .remove id => some id
+  | .setEnv _ => none
+  | .register _ _ => none
+  | .put _ _ _ _ _ _ => none
+  | .enqueue _ _ _ _ _ => none
+  | .sign _ _ _ _ _ _ => none
+  | .addEstimate _ _ _ => none
+  | .endBlock => none
+  | .setPublic _ => none
+  | .setError _ => none
+  | .addEvidence _ _ _ => none
+  | .putBatch _ _ _ => none
+  | .confirm _ _ _ _ _ _ => none
+  | .updateBatchGas _ _ => none
+
+def wRemoves : WOp → Option Nat
+  | .queue op => removedBy op
+  | .prune id => some id
+  | _ => none
+
+/-- `v` is on record as a supplier of evidence on (every stored copy of) message `id`, and `id` has
+been handed out by the counter (so no later `put` can produce it again) -/
+def SupInv (id v : Nat) (s : State) : Prop :=
+  id ≤ s.nextId ∧ ∀ it ∈ s.queue, it.id = id → v ∈ it.evidence.map (·.1)
+
+def WInv (w : World) : Prop := QInv w.q ∧ EvNodup w.q
+
+section LemmasWorld
+
+theorem wrun_append (a b : List WOp) : wrun (a ++ b) = b.foldl wstep (wrun a) := by
+  unfold wrun; rw [List.foldl_append]
+
+theorem wrun_snoc (a : List WOp) (op : WOp) : wrun (a ++ [op]) = wstep (wrun a) op := by
+  rw [wrun_append]; rfl
+
+theorem wstep_prune_some {w : World} {id : Nat} {it : Item} (h : getItem w.q.queue id = some it) :
+    wstep w (.prune id) = { br := { w.br with jailed := victims w.q it ++ w.br.jailed },
+                            q := (Paloma.Queue.remove w.q id).1 } := by
+  simp only [wstep, h]
+
+theorem wstep_prune_none {w : World} {id : Nat} (h : getItem w.q.queue id = none) :
+    wstep w (.prune id) = w := by
+  simp only [wstep, h]
+
+theorem getItem_some {q : List Item} {id : Nat} {it : Item} (h : getItem q id = some it) :
+    it ∈ q ∧ it.id = id := by
+  unfold getItem at h
+  exact ⟨List.mem_of_find?_eq_some h, by simpa using List.find?_some h⟩
+
+theorem mem_unique_id {q : List Item} (hnd : (q.map (·.id)).Nodup) {a b : Item} (ha : a ∈ q) (hb : b ∈ q)
+    (h : a.id = b.id) : a = b := by
+  induction q with
+  | nil => cases ha
+  | cons x xs ih =>
+    have hc := List.nodup_cons.mp (by simpa only [List.map_cons] using hnd)
+    rcases List.mem_cons.mp ha with ha' | ha' <;> rcases List.mem_cons.mp hb with hb' | hb'
+    · rw [ha', hb']
+    · exact absurd (List.mem_map.mpr ⟨b, hb', by rw [← h, ha']⟩) hc.1
+    · exact absurd (List.mem_map.mpr ⟨a, ha', by rw [h, hb']⟩) hc.1
+    · exact ih hc.2 ha' hb'
+
+theorem filter_tt {α : Type} (l : List α) : l.filter (fun _ => true) = l := by
+  induction l with
+  | nil => rfl
+  | cons x xs ih => simp only [List.filter_cons, if_true, ih]
+
+theorem ItemSucc.rfl' (it : Item) : ItemSucc it it := ⟨rfl, Or.inl rfl⟩
+
+/-! the five ways a queue op builds its new queue -/
+
+theorem QShape.same {s s' : State} {rm : Option Nat} (hq : s'.queue = s.queue) (hn : s'.nextId = s.nextId) :
+    QShape s s' rm :=
+  ⟨fun _ => true, id, [], by rw [hq, filter_tt, List.map_id, List.append_nil], by omega,
+   fun it _ => ItemSucc.rfl' it, fun _ _ h => by simp at h, by simp, by simp⟩
+
+theorem QShape.set {s s' : State} {rm : Option Nat} (hi : QInv s) {id : Nat} {it0 it' : Item}
+    (hg : getItem s.queue id = some it0) (hq : s'.queue = setItem s.queue it')
+    (hn : s'.nextId = s.nextId) (hs : ItemSucc it0 it') : QShape s s' rm := by
+  obtain ⟨hm0, _⟩ := getItem_some hg
+  refine ⟨fun _ => true, fun it => if it.id == it'.id then it' else it, [], ?_, by omega, ?_,
+    fun _ _ h => by simp at h, by simp, by simp⟩
+  · rw [hq, filter_tt, List.append_nil]; rfl
+  · intro it hit
+    by_cases h : it.id = it'.id
+    · have heq : it = it0 := mem_unique_id hi.2 hit hm0 (by rw [h, hs.1])
+      have hb : (it.id == it'.id) = true := by simpa using h
+      simp only [hb, if_true]
+      rw [heq]; exact hs
+    · have hb : (it.id == it'.id) = false := by simpa using h
+      simp only [hb]
+      exact ItemSucc.rfl' it
+
+theorem QShape.map {s s' : State} {rm : Option Nat} (g : Item → Item)
+    (hg : ∀ it, (g it).id = it.id ∧ (g it).evidence = it.evidence)
+    (hq : s'.queue = s.queue.map g) (hn : s'.nextId = s.nextId) : QShape s s' rm :=
+  ⟨fun _ => true, g, [], by rw [hq, filter_tt, List.append_nil], by omega, fun it _ => ⟨(hg it).1, Or.inl (hg it).2⟩,
+   fun _ _ h => by simp at h, by simp, by simp⟩
+
+theorem QShape.push {s s' : State} {rm : Option Nat} (x : Item) (hx : x.id = s.nextId + 1)
+    (he : x.evidence = []) (hq : s'.queue = s.queue ++ [x]) (hn : s'.nextId = s.nextId + 1) :
+    QShape s s' rm :=
+  ⟨fun _ => true, id, [x], by rw [hq, filter_tt, List.map_id], by omega, fun it _ => ItemSucc.rfl' it,
+   fun _ _ h => by simp at h,
+   by intro y hy; simp only [List.mem_singleton] at hy; subst hy; exact ⟨by omega, by omega, he⟩,
+   by simp⟩
+
+theorem QShape.drop {s s' : State} (id : Nat)
+    (hq : s'.queue = s.queue.filter (fun it => it.id != id)) (hn : s'.nextId = s.nextId) :
+    QShape s s' (some id) :=
+  ⟨fun it => it.id != id, _root_.id, [], by simp [hq], by omega, fun it _ => ItemSucc.rfl' it,
+   fun it _ h => by
+     have : it.id = id := by simpa using h
+     rw [this],
+   by simp, by simp⟩
+
+theorem electOne_id (env : Paloma.Queue.Env) (snap : Snap) (it : Item) :
+    (Paloma.Queue.electOne env snap it).id = it.id := by
+  unfold Paloma.Queue.electOne
+  repeat' split
+  all_goals rfl
+
+theorem electOne_evidence (env : Paloma.Queue.Env) (snap : Snap) (it : Item) :
+    (Paloma.Queue.electOne env snap it).evidence = it.evidence := by
+  unfold Paloma.Queue.electOne
+  repeat' split
+  all_goals rfl
+
+/-- **the shape of every queue operation.**  Uniform over the constructors of `Paloma.Queue.Op`: every
+case unfolds the model function of the op (the `simp only` list), splits all of its branches, and closes
+each branch with one of the five builders — `QShape.same` (queue and counter untouched), `QShape.set`
+(`setItem` of a continuation of the looked-up item; evidence unchanged, or one `addEvidence`),
+`QShape.map` (a map that keeps ids and evidence: `electOne`), `QShape.push` (one fresh item with id
+`nextId + 1` and no evidence), `QShape.drop` (filter by id).
+MAINTENANCE: for a new constructor of `Paloma.Queue.Op` add its model function to the `simp only` list of
+THIS lemma (and a builder to the `first` list if it changes the queue in a sixth way; and a line to
+`removedBy` if it deletes messages).  Every world-level theorem is derived from `QShape` alone and needs
+no change. -/
+theorem qstep_shape (s : State) (op : Paloma.Queue.Op) (hi : QInv s) :
+    QShape s (Paloma.Queue.apply s op) (removedBy op) := by
+  cases op
+  all_goals
+    simp only [Paloma.Queue.apply, Paloma.Queue.register, Paloma.Queue.put, Paloma.Queue.enqueue,
+      Paloma.Queue.sign, Paloma.Queue.signWith, Paloma.Queue.addEstimate, Paloma.Queue.endBlock,
+      Paloma.Queue.setPublic, Paloma.Queue.setError, Paloma.Queue.addEv, Paloma.Queue.remove,
+      Paloma.Queue.putBatch, Paloma.Queue.confirm, Paloma.Queue.confirmWith, Paloma.Queue.updateBatchGas]
+    repeat' split
+  all_goals first
+    | exact QShape.same rfl rfl
+    | exact QShape.push _ rfl rfl rfl rfl
+    | exact QShape.drop _ rfl rfl
+    | exact QShape.map _ (fun it => ⟨electOne_id _ _ it, electOne_evidence _ _ it⟩) rfl rfl
+    | (have hg := ‹getItem s.queue _ = some _›
+       first
+         | exact QShape.set hi hg rfl rfl ⟨rfl, Or.inl rfl⟩
+         | exact QShape.set hi hg rfl rfl ⟨rfl, Or.inr ⟨_, rfl⟩⟩)
+
+/-! consequences of the shape -/
+
+theorem QShape.mem {s s' : State} {rm : Option Nat} (h : QShape s s' rm) {it' : Item} (hm : it' ∈ s'.queue) :
+    (∃ it ∈ s.queue, ItemSucc it it') ∨ (s.nextId < it'.id ∧ it'.id ≤ s'.nextId ∧ it'.evidence = []) := by
+  obtain ⟨p, f, fresh, hq, _, hsucc, _, hfresh, _⟩ := h
+  rw [hq, List.mem_append] at hm
+  rcases hm with hm | hm
+  · obtain ⟨it, hit, rfl⟩ := List.mem_map.mp hm
+    have hit' := (List.mem_filter.mp hit).1
+    exact Or.inl ⟨it, hit', hsucc it hit'⟩
+  · exact Or.inr (hfresh it' hm)
+
+theorem QShape.keeps {s s' : State} {rm : Option Nat} (h : QShape s s' rm) {it : Item} (hm : it ∈ s.queue)
+    (hrm : rm ≠ some it.id) : ∃ it' ∈ s'.queue, ItemSucc it it' := by
+  obtain ⟨p, f, fresh, hq, _, hsucc, hdrop, _, _⟩ := h
+  have hp : p it = true := by
+    cases hpi : p it with
+    | true => rfl
+    | false => exact absurd (hdrop it hm hpi) hrm
+  refine ⟨f it, ?_, hsucc it hm⟩
+  rw [hq]
+  exact List.mem_append_left _ (List.mem_map.mpr ⟨it, List.mem_filter.mpr ⟨hm, hp⟩, rfl⟩)
+
+theorem QShape.qinv {s s' : State} {rm : Option Nat} (h : QShape s s' rm) (hi : QInv s) : QInv s' := by
+  constructor
+  · intro it' hm
+    rcases h.mem hm with ⟨it, hit, hs⟩ | ⟨_, hle, _⟩
+    · obtain ⟨_, _, _, _, hn, _⟩ := h
+      have := hi.1 it hit
+      rw [hs.1]; omega
+    · exact hle
+  · obtain ⟨p, f, fresh, hq, hn, hsucc, _, hfresh, hfnd⟩ := h
+    have hmap : ((s.queue.filter p).map f).map (·.id) = (s.queue.filter p).map (·.id) := by
       rw [List.map_map]
       apply List.map_congr_left
-      intro m _
-      simp only [Function.comp]
-      split <;> rfl
-    rw [this]; exact h
-  | prune id dl snap =>
-    simp only [pstep]
-    split
-    · exact h
-    · exact h.sublist ((List.filter_sublist).map _)
+      intro it hit
+      exact (hsucc it (List.mem_filter.mp hit).1).1
+    rw [hq, List.map_append, hmap]
+    refine List.nodup_append.mpr ⟨hi.2.sublist ((List.filter_sublist).map _), hfnd, ?_⟩
+    intro a ha b hb hab
+    obtain ⟨x, hx, rfl⟩ := List.mem_map.mp ha
+    obtain ⟨y, hy, rfl⟩ := List.mem_map.mp hb
+    have h1 := hi.1 x (List.mem_filter.mp hx).1
+    have h2 := (hfresh y hy).1
+    omega
 
-theorem prun_ids_nodup (ops : List POp) : ((prun ops).msgs.map (·.1)).Nodup := by
-  unfold prun
-  suffices h : ∀ s : PSt, (s.msgs.map (·.1)).Nodup → ((ops.foldl pstep s).msgs.map (·.1)).Nodup from
-    h _ (by simp [PSt.init])
-  induction ops with
-  | nil => intro s h; exact h
-  | cons op rest ih => intro s h; exact ih _ (pstep_ids_nodup s op h)
+theorem QShape.evNodup {s s' : State} {rm : Option Nat} (h : QShape s s' rm) (he : EvNodup s) : EvNodup s' := by
+  intro it' hm
+  rcases h.mem hm with ⟨it, hit, _, hev | ⟨e, hev⟩⟩ | ⟨_, _, hev⟩
+  · rw [hev]; exact he it hit
+  · rw [hev]; exact Paloma.Libcons.addEvidence_nodup _ e (he it hit)
+  · rw [hev]; simp
 
-theorem find_of_nodup {β : Type} : ∀ (l : List (Nat × β)), (l.map (·.1)).Nodup → ∀ m ∈ l,
-    (l.find? (fun x => x.1 == m.1)).map (·.2) = some m.2 := by
-  intro l
-  induction l with
-  | nil => intro _ m hm; cases hm
-  | cons x xs ih =>
-    intro hnd m hm
-    have hc := List.nodup_cons.mp (by simpa only [List.map_cons] using hnd)
-    rcases List.mem_cons.mp hm with rfl | hm'
-    · simp
-    · have hne : x.1 ≠ m.1 := fun e => hc.1 (List.mem_map.mpr ⟨m, hm', e.symm⟩)
-      have : (x.1 == m.1) = false := by simpa using hne
-      simp only [List.find?_cons, this]
-      exact ih hc.2 m hm'
+theorem QShape.supInv {s s' : State} {rm : Option Nat} (h : QShape s s' rm) {id v : Nat}
+    (hs : SupInv id v s) : SupInv id v s' := by
+  constructor
+  · obtain ⟨_, _, _, _, hn, _⟩ := h
+    have := hs.1; omega
+  · intro it' hm hid
+    rcases h.mem hm with ⟨it, hit, hi1, hev | ⟨e, hev⟩⟩ | ⟨hlt, _, _⟩
+    · rw [hev]; exact hs.2 it hit (by rw [← hi1, hid])
+    · rw [hev]; exact Paloma.Libcons.addEvidence_keeps _ e v (hs.2 it hit (by rw [← hi1, hid]))
+    · have := hs.1; omega
 
-theorem evidenceOf_of_mem {s : PSt} (hnd : (s.msgs.map (·.1)).Nodup) {m : Nat × List Evidence} (hm : m ∈ s.msgs) :
-    s.evidenceOf m.1 = some m.2 := find_of_nodup s.msgs hnd m hm
-
-theorem pstep_prune_some (s : PSt) (id : Nat) (dl : Bool) (snap : Snapshot) (evs : List Evidence)
-    (h : s.evidenceOf id = some evs) :
-    (pstep s (.prune id dl snap)).jailed = pruneOutcome dl snap evs ++ s.jailed := by
-  simp only [pstep, h]
-
-theorem evidenceOf_some_mem {s : PSt} {id : Nat} {evs : List Evidence} (h : s.evidenceOf id = some evs) :
-    (id, evs) ∈ s.msgs := by
-  unfold PSt.evidenceOf at h
-  cases hf : s.msgs.find? (fun m => m.1 == id) with
-  | none => simp [hf] at h
-  | some p =>
-    simp only [hf, Option.map_some, Option.some.injEq] at h
-    have hm := List.mem_of_find?_eq_some hf
-    have hp : p.1 = id := by simpa using List.find?_some hf
-    obtain ⟨a, b⟩ := p
-    simp only at h hp
-    subst h; subst hp
-    exact hm
-
-/-- the jailed set is written by a prune op only -/
-theorem pstep_jailed (s : PSt) (op : POp) :
-    (pstep s op).jailed = s.jailed ∨
-    ∃ id dl snap evs, op = .prune id dl snap ∧ s.evidenceOf id = some evs ∧
-      (pstep s op).jailed = pruneOutcome dl snap evs ++ s.jailed := by
+/-- every world step is a queue step of that shape (bridge-side ops leave the queue alone; a prune is
+a `remove`) -/
+theorem wstep_shape (w : World) (op : WOp) (hi : QInv w.q) : QShape w.q (wstep w op).q (wRemoves op) := by
   cases op with
-  | put id => left; simp only [pstep]; split <;> rfl
-  | evidence id e => left; rfl
-  | prune id dl snap =>
-    simp only [pstep]
-    cases h : s.evidenceOf id with
-    | none => left; rfl
-    | some evs => right; exact ⟨id, dl, snap, evs, rfl, h, rfl⟩
+  | bridge op => exact QShape.same rfl rfl
+  | evidence c key => exact QShape.same rfl rfl
+  | register v key => exact QShape.same rfl rfl
+  | queue op => exact qstep_shape w.q op hi
+  | prune id =>
+    cases hg : getItem w.q.queue id with
+    | none => rw [wstep_prune_none hg]; exact QShape.same rfl rfl
+    | some it => rw [wstep_prune_some hg]; exact qstep_shape w.q (.remove id) hi
 
-/-- once a validator's evidence is on a message it stays there until the message is pruned -/
-theorem pstep_keeps_evidence (s : PSt) (op : POp) (id : Nat) (evs : List Evidence) (v : Nat)
-    (h : s.evidenceOf id = some evs) (hv : v ∈ evs.map (·.1)) (hnd : (s.msgs.map (·.1)).Nodup)
-    (hop : ∀ dl snap, op ≠ .prune id dl snap) :
-    ∃ evs', (pstep s op).evidenceOf id = some evs' ∧ v ∈ evs'.map (·.1) := by
-  have hmem := evidenceOf_some_mem h
-  have hnd' := pstep_ids_nodup s op hnd
-  cases op with
-  | put id' =>
-    have hm' : (id, evs) ∈ (pstep s (.put id')).msgs := by
-      simp only [pstep]; split
-      · exact hmem
-      · exact List.mem_append_left _ hmem
-    exact ⟨evs, evidenceOf_of_mem hnd' hm', hv⟩
-  | evidence id' e =>
-    by_cases hid : id = id'
-    · subst hid
-      have hm' : (id, addEvidence evs e) ∈ (pstep s (.evidence id e)).msgs := by
-        simp only [pstep]
-        exact List.mem_map.mpr ⟨(id, evs), hmem, by simp⟩
-      exact ⟨addEvidence evs e, evidenceOf_of_mem hnd' hm', addEvidence_keeps evs e v hv⟩
-    · have hm' : (id, evs) ∈ (pstep s (.evidence id' e)).msgs := by
-        simp only [pstep]
-        exact List.mem_map.mpr ⟨(id, evs), hmem, by simp [hid]⟩
-      exact ⟨evs, evidenceOf_of_mem hnd' hm', hv⟩
-  | prune id' dl snap =>
-    have hid : id ≠ id' := fun e => hop dl snap (by rw [e])
-    have hm' : (id, evs) ∈ (pstep s (.prune id' dl snap)).msgs := by
-      simp only [pstep]
-      split
-      · exact hmem
-      · exact List.mem_filter.mpr ⟨hmem, by simp [hid]⟩
-    exact ⟨evs, evidenceOf_of_mem hnd' hm', hv⟩
+theorem winv_step (w : World) (op : WOp) (h : WInv w) : WInv (wstep w op) :=
+  ⟨(wstep_shape w op h.1).qinv h.1, (wstep_shape w op h.1).evNodup h.2⟩
 
-theorem foldl_keeps_evidence (ops : List POp) (id : Nat) (v : Nat) (hop : ∀ op ∈ ops, ∀ dl snap, op ≠ .prune id dl snap) :
-    ∀ (s : PSt) (evs : List Evidence), (s.msgs.map (·.1)).Nodup → s.evidenceOf id = some evs → v ∈ evs.map (·.1) →
-      ∃ evs', (ops.foldl pstep s).evidenceOf id = some evs' ∧ v ∈ evs'.map (·.1) := by
+theorem winv_foldl (ops : List WOp) : ∀ w, WInv w → WInv (ops.foldl wstep w) := by
   induction ops with
-  | nil => intro s evs _ h hv; exact ⟨evs, h, hv⟩
+  | nil => intro w h; exact h
+  | cons op rest ih => intro w h; exact ih _ (winv_step w op h)
+
+theorem winv_init : WInv World.init := by
+  refine ⟨⟨?_, ?_⟩, ?_⟩
+  · intro it h; exact absurd h List.not_mem_nil
+  · exact List.nodup_nil
+  · intro it h; exact absurd h List.not_mem_nil
+
+theorem winv_wrun (ops : List WOp) : WInv (wrun ops) := winv_foldl ops _ winv_init
+
+theorem supInv_foldl (ops : List WOp) (id v : Nat) : ∀ w, QInv w.q → SupInv id v w.q →
+    QInv (ops.foldl wstep w).q ∧ SupInv id v (ops.foldl wstep w).q := by
+  induction ops with
+  | nil => intro w h1 h2; exact ⟨h1, h2⟩
   | cons op rest ih =>
-    intro s evs hnd h hv
-    obtain ⟨evs1, h1, hv1⟩ := pstep_keeps_evidence s op id evs v h hv hnd (hop op List.mem_cons_self)
-    exact ih (fun o ho => hop o (List.mem_cons_of_mem _ ho)) _ evs1 (pstep_ids_nodup s op hnd) h1 hv1
+    intro w h1 h2
+    exact ih _ ((wstep_shape w op h1).qinv h1) ((wstep_shape w op h1).supInv h2)
 
-end Lemmas2
+/-- right after an accepted `addEvidence id v h` the supplier invariant holds -/
+theorem addEv_supInv (s : State) (id v h : Nat) (hi : QInv s) (hq : (getItem s.queue id).isSome) :
+    SupInv id v (Paloma.Queue.apply s (.addEvidence id v h)) := by
+  obtain ⟨it0, h0⟩ := Option.isSome_iff_exists.mp hq
+  obtain ⟨hm0, hid0⟩ := getItem_some h0
+  have hst : Paloma.Queue.apply s (.addEvidence id v h) =
+      { s with queue := setItem s.queue { it0 with evidence := addEvidence it0.evidence (v, h) } } := by
+    simp only [Paloma.Queue.apply, Paloma.Queue.addEv, h0]
+  rw [hst]
+  constructor
+  · have := hi.1 it0 hm0
+    simp only; omega
+  · intro x hx hxid
+    simp only [setItem, List.mem_map] at hx
+    obtain ⟨y, _, rfl⟩ := hx
+    by_cases hc : y.id = it0.id
+    · have hb : (y.id == it0.id) = true := by simpa using hc
+      simp only [hb, if_true]
+      exact Paloma.Libcons.addEvidence_adds it0.evidence (v, h)
+    · have hb : (y.id == it0.id) = false := by simpa using hc
+      simp only [hb] at hxid
+      exact absurd (hxid.trans hid0.symm) hc
 
-end Paloma.Libcons
+/-! ### the projection to part A -/
+
+theorem wstep_br (w : World) (op : WOp) : (wstep w op).br = (trace1 w op).foldl apply13 w.br := by
+  cases op with
+  | bridge op => rfl
+  | evidence c key => rfl
+  | register v key => rfl
+  | queue op => rfl
+  | prune id =>
+    cases hg : getItem w.q.queue id with
+    | none => rw [wstep_prune_none hg]; simp only [trace1, hg]; rfl
+    | some it => rw [wstep_prune_some hg]; simp only [trace1, hg]; rfl
+
+theorem foldl_br (ops : List WOp) : ∀ w, (ops.foldl wstep w).br = (trace13 w ops).foldl apply13 w.br := by
+  induction ops with
+  | nil => intro w; rfl
+  | cons op rest ih =>
+    intro w
+    simp only [List.foldl_cons, trace13, List.foldl_append]
+    rw [ih, wstep_br]
+
+theorem trace13_append (a b : List WOp) : ∀ w, trace13 w (a ++ b) = trace13 w a ++ trace13 (a.foldl wstep w) b := by
+  induction a with
+  | nil => intro w; rfl
+  | cons op rest ih =>
+    intro w
+    simp only [List.cons_append, trace13, List.foldl_cons, ih, List.append_assoc]
+
+theorem wrun_br (ops : List WOp) : (wrun ops).br = run13 (trace13 World.init ops) := by
+  unfold wrun run13
+  exact foldl_br ops World.init
+
+theorem wrun_br_append (a b : List WOp) :
+    (wrun (a ++ b)).br = run13 (trace13 World.init a ++ trace13 (wrun a) b) := by
+  rw [wrun_br, trace13_append]; rfl
+
+theorem wrun_br_of_trace {pre : List WOp} {p : List Op13} (hp : trace13 World.init pre = p) :
+    (wrun pre).br = run13 p := by
+  rw [wrun_br, hp]
+
+theorem trace1_cases (w : World) (op : WOp) : trace1 w op = [] ∨ ∃ x, trace1 w op = [x] := by
+  cases op with
+  | bridge op => exact Or.inr ⟨_, rfl⟩
+  | evidence c key => exact Or.inr ⟨_, rfl⟩
+  | register v key => exact Or.inr ⟨_, rfl⟩
+  | queue op => exact Or.inl rfl
+  | prune id =>
+    cases hg : getItem w.q.queue id with
+    | none => left; simp only [trace1, hg]
+    | some it => right; exact ⟨.jail (victims w.q it), by simp only [trace1, hg]⟩
+
+/-- an op of the projected history comes from exactly one op of the world history -/
+theorem trace13_split : ∀ (ops : List WOp) (w : World) (p : List Op13) (o : Op13) (r : List Op13),
+    trace13 w ops = p ++ o :: r →
+    ∃ pre op rest, ops = pre ++ op :: rest ∧ trace13 w pre = p ∧ trace1 (pre.foldl wstep w) op = [o] := by
+  intro ops
+  induction ops with
+  | nil => intro w p o r h; simp [trace13] at h
+  | cons op rest ih =>
+    intro w p o r h
+    simp only [trace13] at h
+    rcases trace1_cases w op with h0 | ⟨x, hx⟩
+    · rw [h0, List.nil_append] at h
+      obtain ⟨pre, op', rest', he, ht, h1⟩ := ih _ p o r h
+      exact ⟨op :: pre, op', rest', by rw [he]; rfl, by simp only [trace13, h0, List.nil_append, ht], h1⟩
+    · rw [hx] at h
+      cases p with
+      | nil =>
+        simp only [List.nil_append, List.singleton_append, List.cons.injEq] at h
+        exact ⟨[], op, rest, rfl, rfl, by rw [← h.1]; exact hx⟩
+      | cons y p' =>
+        simp only [List.cons_append, List.cons.injEq] at h
+        obtain ⟨pre, op', rest', he, ht, h1⟩ := ih _ p' o r h.2
+        exact ⟨op :: pre, op', rest', by rw [he]; rfl,
+          by simp only [trace13, hx, List.singleton_append, ht, h.1], h1⟩
+
+theorem trace1_evidence {w : World} {op : WOp} {c : Ckpt} {key : Nat} (h : trace1 w op = [.evidence c key]) :
+    op = .evidence c key := by
+  cases op with
+  | bridge op => simp [trace1] at h
+  | evidence c' key' => simp only [trace1, List.cons.injEq, Op13.evidence.injEq, and_true] at h; rw [h.1, h.2]
+  | register v key => simp [trace1] at h
+  | queue op => simp [trace1] at h
+  | prune id =>
+    cases hg : getItem w.q.queue id with
+    | none => simp [trace1, hg] at h
+    | some it => simp [trace1, hg] at h
+
+theorem trace1_register {w : World} {op : WOp} {v key : Nat} (h : trace1 w op = [.register v key]) :
+    op = .register v key := by
+  cases op with
+  | bridge op => simp [trace1] at h
+  | evidence c' key' => simp [trace1] at h
+  | register v' key' => simp only [trace1, List.cons.injEq, Op13.register.injEq, and_true] at h; rw [h.1, h.2]
+  | queue op => simp [trace1] at h
+  | prune id =>
+    cases hg : getItem w.q.queue id with
+    | none => simp [trace1, hg] at h
+    | some it => simp [trace1, hg] at h
+
+theorem trace1_jail {w : World} {op : WOp} {vs : List Nat} (h : trace1 w op = [.jail vs]) :
+    ∃ id it, op = .prune id ∧ getItem w.q.queue id = some it ∧ vs = victims w.q it := by
+  cases op with
+  | bridge op => simp [trace1] at h
+  | evidence c' key' => simp [trace1] at h
+  | register v' key' => simp [trace1] at h
+  | queue op => simp [trace1] at h
+  | prune id =>
+    cases hg : getItem w.q.queue id with
+    | none => simp [trace1, hg] at h
+    | some it =>
+      simp only [trace1, hg, List.cons.injEq, Op13.jail.injEq, and_true] at h
+      exact ⟨id, it, rfl, hg, h.symm⟩
+
+end LemmasWorld
+
+end Paloma.C13
+
 
 /-! ## Property theorems (C13) -/
 
@@ -709,10 +1080,13 @@ theorem issued_checkpoint_archived_forever (before after : List Op13) (b : Batch
     (hb : b ∈ (run13 before).batches) : b.ckpt ∈ (run13 (before ++ after)).archive :=
   archive_grows before after b.ckpt (open_batch_checkpoint_archived before b hb)
 
-/-- **archive_written_where_checkpoints_are_issued.** In the current source (regenerated table) the
-two functions that store a batch's signing bytes — the build and the gas-estimate re-issue — both
-archive the checkpoint, and nothing but the archive's own setter / getter touches its store key
-(so an archived checkpoint is never deleted). -/
+/-- **archive_written_where_checkpoints_are_issued.** A SOURCE TIE, not a semantic theorem: a `decide`
+over string tables (`Gen/Atomicity.lean`) that the extractor regenerates from the Go source on every
+check.  It says that in the current source the two functions that store a batch's signing bytes — the
+build and the gas-estimate re-issue — both call the archive's setter, and that nothing but the archive's
+own setter / getter mentions its store key (so no code path deletes an archived checkpoint).  What the
+table means is the extractor's responsibility (trusted); the theorem only pins the model's two archive
+writes (`buildOk`, `estimateOk`) to the functions they mirror and fails when the source drifts. -/
 theorem archive_written_where_checkpoints_are_issued :
     (Paloma.Gen.Atomicity.archiveSetters.contains "x/skyway/keeper.Keeper.BuildOutgoingTXBatch" &&
      Paloma.Gen.Atomicity.archiveSetters.contains "x/skyway/keeper.Keeper.UpdateBatchGasEstimate" &&
@@ -730,30 +1104,92 @@ theorem genuine_confirmation_safe (before after : List Op13) (b : Batch) (key : 
   unfold evidence
   simp [this]
 
-/-- **jail_provenance.** A validator `v` is in the jailed set only if the history contains an evidence
-op — checkpoint `c`, signature recovering to `key` — such that at that moment (i) `c` was not archived,
-hence (ii) `c` had not been the signing bytes of any batch open in any earlier state of the history
-(it had not been issued so far), and (iii) `key` was the remote key *registered by `v`* in the chain's
-own registry (`lookupKey`, `(v, key) ∈ keys`): the signature is by that validator's registered key. -/
+/-- **key_registry_provenance** (registry provenance).  `(v, key)` is in the chain's key registry only
+because the history contains a `register v key` op — by `v` itself, for exactly this key — that the
+chain accepted (result `.ok`: `v` was not jailed and nobody else held the key). -/
+theorem key_registry_provenance (ops : List Op13) (v key : Nat) (h : (v, key) ∈ (run13 ops).keys) :
+    ∃ pre rest, ops = pre ++ .register v key :: rest ∧ (registerKey (run13 pre) v key).2 = .ok := by
+  rcases first_appearance apply13 (·.keys) (v, key) ops St.init h with h0 | ⟨pre, op, rest, he, hn, hm⟩
+  · simp [St.init] at h0
+  · rcases apply13_keys (pre.foldl apply13 St.init) op with h1 | ⟨v', key', hop, hok, h1⟩
+    · rw [h1] at hm; exact absurd hm hn
+    · rw [h1] at hm
+      rcases mem_setKey hm with heq | hold
+      · have hv : v = v' := congrArg Prod.fst heq
+        have hk : key = key' := congrArg Prod.snd heq
+        subst hv; subst hk
+        exact ⟨pre, rest, by rw [he, hop], hok⟩
+      · exact absurd hold hn
+
+/-- **jail_provenance.** A validator `v` is in the jailed set only if EITHER the history contains an
+evidence op — checkpoint `c`, signature recovering to `key` — such that at that moment
+(i) `c` was not archived, hence
+(ii) `c` had not been the signing bytes of any batch open at any earlier op boundary of the history
+(it had not been issued so far), and
+(iii) `key` was the remote key *registered by `v`* in the chain's own registry (`lookupKey`,
+`(v, key) ∈ keys`), and that registry entry was written by a `register v key` op of the prefix that the
+chain accepted (`lookupKey … = some v` says no later accepted registration moved the key away from `v`);
+OR `v` was jailed by a mechanism outside part A (an explicit `jail` op naming `v`: prune-time jailing,
+see `world_jail_provenance`, or staking).
+
+Two things this statement does NOT say, deliberately.
+(a) The key is looked up at EVIDENCE time, not at signing time, exactly as
+`checkBadSignatureEvidenceInternal` calls `GetValidatorByEthAddress` when the evidence arrives.  After a
+rotation (`v` registers another key, `w` then registers `key`) the validator jailed for an old signature
+by `key` is its NEW holder `w` (`holder_at_evidence_time` below exhibits it).  The theorem's "registered
+key" is the registration in force when the evidence is processed.
+(b) Clause (ii) quantifies over op boundaries.  A checkpoint that is built and re-estimated inside ONE
+end-block (`createBatches` then `applyEstimates`) is the checkpoint of an open batch at no op boundary,
+so (ii) does not see it; it is covered by clause (i) alone, `c ∉ archive`, together with the archive
+invariant (`buildOk` and `estimateOk` archive at once, `archive_grows`): both checkpoints are archived
+inside that end-block and evidence over either is refused ever after. -/
 theorem jail_provenance (ops : List Op13) (v : Nat) (hv : v ∈ (run13 ops).jailed) :
-    ∃ pre c key rest, ops = pre ++ .evidence c key :: rest ∧
+    (∃ pre c key rest, ops = pre ++ .evidence c key :: rest ∧
       c ∉ (run13 pre).archive ∧
       (∀ pre' more b, pre = pre' ++ more → b ∈ (run13 pre').batches → b.ckpt ≠ c) ∧
-      lookupKey (run13 pre).keys key = some v ∧ (v, key) ∈ (run13 pre).keys := by
+      lookupKey (run13 pre).keys key = some v ∧ (v, key) ∈ (run13 pre).keys ∧
+      ∃ p0 p1, pre = p0 ++ .register v key :: p1 ∧ (registerKey (run13 p0) v key).2 = .ok) ∨
+    (∃ pre vs rest, ops = pre ++ .jail vs :: rest ∧ v ∈ vs) := by
   rcases first_appearance apply13 (·.jailed) v ops St.init hv with h | ⟨pre, op, rest, he, hn, hm⟩
   · simp [St.init] at h
-  · rcases apply13_jailed (pre.foldl apply13 St.init) op with h1 | ⟨c, key, w, hop, hc, hw, h1⟩
+  · rcases apply13_jailed (pre.foldl apply13 St.init) op with h1 | ⟨c, key, w, hop, hc, hw, h1⟩ | ⟨vs, hop, h1⟩
     · rw [h1] at hm; exact absurd hm hn
     · rw [h1, List.mem_cons] at hm
       rcases hm with hm | hm
       · subst hm
-        refine ⟨pre, c, key, rest, by rw [he, hop], hc, ?_, hw, lookupKey_some hw⟩
+        left
+        refine ⟨pre, c, key, rest, by rw [he, hop], hc, ?_, hw, lookupKey_some hw,
+          key_registry_provenance pre v key (lookupKey_some hw)⟩
         intro pre' more b hpre hb hck
         apply hc
         have := issued_checkpoint_archived_forever pre' more b hb
         rw [← hpre, hck] at this
         exact this
       · exact absurd hm hn
+    · rw [h1, List.mem_append] at hm
+      rcases hm with hm | hm
+      · right; exact ⟨pre, vs, rest, by rw [he, hop], hm⟩
+      · exact absurd hm hn
+
+/-- **jail_provenance_evidence_only.** In a history without external jailing, bad-signature evidence
+is the only way into the jailed set: the statement of `jail_provenance` with the first alternative only. -/
+theorem jail_provenance_evidence_only (ops : List Op13) (hno : ∀ vs, Op13.jail vs ∉ ops) (v : Nat)
+    (hv : v ∈ (run13 ops).jailed) :
+    ∃ pre c key rest, ops = pre ++ .evidence c key :: rest ∧
+      c ∉ (run13 pre).archive ∧
+      (∀ pre' more b, pre = pre' ++ more → b ∈ (run13 pre').batches → b.ckpt ≠ c) ∧
+      lookupKey (run13 pre).keys key = some v ∧ (v, key) ∈ (run13 pre).keys := by
+  rcases jail_provenance ops v hv with ⟨pre, c, key, rest, he, hc, hi, hl, hk, _⟩ | ⟨pre, vs, rest, he, _⟩
+  · exact ⟨pre, c, key, rest, he, hc, hi, hl, hk⟩
+  · exact absurd (by rw [he]; simp) (hno vs)
+
+/-- **jailed_cannot_register.** A jailed validator — jailed by evidence or by a prune, it is one set —
+cannot (re-)register a remote key: the registration is refused and changes nothing. -/
+theorem jailed_cannot_register (s : St) (v key : Nat) (h : v ∈ s.jailed) :
+    registerKey s v key = (s, .rejected) := by
+  unfold registerKey
+  have : s.jailed.contains v = true := by simpa using h
+  simp only [this, if_true]
 
 /-- **registered_key_unique.** In every reachable state a remote key has at most one holder, so "the
 validator that registered the key" is well defined; and the jailing step looks the holder up. -/
@@ -814,6 +1250,15 @@ example : (run13 demo13).archive = [(1, 1, 21000, 0), (1, 1, 0, 0)] ∧
     (evidence (run13 (demo13 ++ [.register 3 35])) (1, 1, 21000, 1) 35).1.jailed = [3] ∧
     (run13 (demo13 ++ [.register 3 44])).keys = [(3, 33), (4, 44)] := by decide
 
+/-- `holder_at_evidence_time`: the key is resolved when the evidence ARRIVES.  Validator 3 held key 33,
+rotated to 35, validator 4 then took 33: evidence of a signature by key 33 over a checkpoint the chain
+never issued jails validator 4, its holder now — whoever held the key when the signature was made. -/
+example : (run13 [.register 3 33, .register 3 35, .register 4 33, .evidence (1, 1, 0, 9) 33]).jailed = [4] ∧
+    (run13 [.register 3 33, .evidence (1, 1, 0, 9) 33]).jailed = [3] ∧
+    -- external jailing writes the same set, and a jailed validator cannot register
+    (run13 [.jail [8, 9], .register 8 80, .register 7 70, .evidence (1, 1, 0, 9) 70]).jailed = [7, 8, 9] ∧
+    (run13 [.jail [8, 9], .register 8 80, .register 7 70]).keys = [(7, 70)] := by decide
+
 end Paloma.Bridge
 
 namespace Paloma.Libcons
@@ -854,8 +1299,13 @@ theorem evidence_suppliers_distinct (subs : List Evidence) : ((evidenceAfter sub
 
 /-- **prune_floor.** Nobody is jailed when fewer than 10 % of the snapshot shares attested — the shares
 of the *distinct* snapshot validators that supplied evidence, each counted once, whatever the
-submission history (re-submissions, several proofs) — for a snapshot that lists every validator once
-(C10 proves that of `createNewSnapshot`). -/
+submission history (re-submissions, several proofs).
+ASSUMPTION `hnd`: the snapshot lists every validator once.  This is NOT proved here.  C10
+(`Props/C10.lean: stored_each_once`) proves it of every snapshot `createNewSnapshot` stores, and does so
+only under C10's own ASSUMPTION `StakingWF` (every staking state shown to the module lists pairwise
+distinct validator ids — the Cosmos SDK staking store is keyed by operator address).  So `hnd` rests on
+`StakingWF`; without it the code's multiplicity-counting sum (`foundShares`, `prune_floor_counted`) is
+all that is known. -/
 theorem prune_floor (vs : List (Nat × Nat)) (total : Nat) (subs : List Evidence)
     (hnd : (vs.map (·.1)).Nodup)
     (h : 10 * attestedShares ⟨vs, total⟩ ((evidenceAfter subs).map (·.1)) < total) :
@@ -897,71 +1347,37 @@ theorem prune_spares_every_submitter (s : Snapshot) (subs : List Evidence) (v : 
     v ∉ pruneJail s ((evidenceAfter subs).map (·.1)) :=
   prune_spares_attesters s _ v (evidence_never_lost subs v hv)
 
-/-- **prune_jail_provenance** (queue machine).  Over every history of puts, evidence submissions and
-prunes on any number of messages: a validator is in the jailed set only because some prune op of the
-history, of a message with a delivery / error report whose evidence `evs` did not reach consensus,
-found it in the snapshot of that moment, *not* among the suppliers of the evidence the message held, and
-the suppliers' counted votes were at least 10 % of that snapshot's total. -/
-theorem prune_jail_provenance (ops : List POp) (v : Nat) (hv : v ∈ (prun ops).jailed) :
-    ∃ pre id snap rest evs, ops = pre ++ .prune id true snap :: rest ∧
-      (prun pre).evidenceOf id = some evs ∧ verifyEvidence snap evs = .notAchieved ∧
-      v ∈ snap.vals.map (·.1) ∧ v ∉ evs.map (·.1) ∧
-      ¬ (10 * (foundShares snap (evs.map (·.1))).sum < snap.total) := by
-  rcases Paloma.Bridge.first_appearance pstep (·.jailed) v ops PSt.init hv with h | ⟨pre, op, rest, he, hn, hm⟩
-  · simp [PSt.init] at h
-  · rcases pstep_jailed (pre.foldl pstep PSt.init) op with h1 | ⟨id, dl, snap, evs, hop, hev, h1⟩
-    · rw [h1] at hm; exact absurd hm hn
-    · rw [h1, List.mem_append] at hm
-      rcases hm with hm | hm
-      · unfold pruneOutcome at hm
-        cases dl with
-        | false => simp at hm
-        | true =>
-          simp only [Bool.not_true, Bool.false_eq_true, if_false] at hm
-          cases hver : verifyEvidence snap evs with
-          | winnerIn ws => simp [hver] at hm
-          | notAchieved =>
-            simp only [hver] at hm
-            refine ⟨pre, id, snap, rest, evs, by rw [he, hop], hev, hver, prune_only_snapshot _ _ _ hm, ?_, ?_⟩
-            · intro hin
-              exact prune_spares_attesters snap _ v hin hm
-            · intro hlt
-              rw [prune_floor_counted snap _ hlt] at hm
-              cases hm
-      · exact absurd hm hn
+/-- **prune_floor_distinct.** `prune_floor` for any snapshot value and any list of distinct suppliers
+(the form the world machine uses: its suppliers are distinct by `world_evidence_nodup`).  Same
+ASSUMPTION `hnd` as `prune_floor`. -/
+theorem prune_floor_distinct (s : Snapshot) (evs : List Nat) (hnd : (s.vals.map (·.1)).Nodup) (hev : evs.Nodup)
+    (h : 10 * attestedShares s evs < s.total) : pruneJail s evs = [] := by
+  apply prune_floor_counted
+  rw [foundShares_sum_eq' s hnd evs hev]
+  exact h
 
-/-- **supplier_never_jailed_by_its_message** (queue machine, third clause).  If validator `v` supplied
-evidence for message `id` (the message being in the queue at that moment) and the message is pruned
-later — any number of other submissions, other messages and other prunes in between — then `v` is not
-among the validators that prune jails. -/
-theorem supplier_never_jailed_by_its_message (pre mid : List POp) (id : Nat) (e : Evidence)
-    (dl : Bool) (snap : Snapshot)
-    (hq : ((prun pre).evidenceOf id).isSome)
-    (hmid : ∀ op ∈ mid, ∀ dl' snap', op ≠ .prune id dl' snap') :
-    ∃ evs, (prun (pre ++ .evidence id e :: mid)).evidenceOf id = some evs ∧
-      (prun (pre ++ .evidence id e :: mid ++ [.prune id dl snap])).jailed =
-        pruneOutcome dl snap evs ++ (prun (pre ++ .evidence id e :: mid)).jailed ∧
-      e.1 ∉ pruneOutcome dl snap evs := by
-  obtain ⟨evs0, h0⟩ := Option.isSome_iff_exists.mp hq
-  -- after the submission the message holds `e.1`
-  have hnd := prun_ids_nodup pre
-  have hm1 : (id, addEvidence evs0 e) ∈ (pstep (prun pre) (.evidence id e)).msgs := by
-    simp only [pstep]
-    exact List.mem_map.mpr ⟨(id, evs0), evidenceOf_some_mem h0, by simp⟩
-  have h1 := evidenceOf_of_mem (pstep_ids_nodup _ (.evidence id e) hnd) hm1
-  obtain ⟨evs, h2, hv⟩ := foldl_keeps_evidence mid id e.1 hmid _ _ (pstep_ids_nodup _ (.evidence id e) hnd) h1
-    (addEvidence_adds evs0 e)
-  have hrun : prun (pre ++ .evidence id e :: mid) = mid.foldl pstep (pstep (prun pre) (.evidence id e)) := by
-    unfold prun; rw [List.foldl_append]; rfl
-  refine ⟨evs, by rw [hrun]; exact h2, ?_, ?_⟩
-  · rw [prun_snoc, hrun]
-    exact pstep_prune_some _ id dl snap evs h2
-  · unfold pruneOutcome
-    split
-    · simp
-    · split
-      · simp
-      · exact prune_spares_attesters snap _ e.1 hv
+/-- **prune_outcome_provenance.** Whom `PruneJob` can jail at all, on the decision function: only for a
+message with a delivery / error report whose evidence does not reach consensus; only snapshot
+validators; never a supplier of the evidence on record; never when the counted votes are below 10 %. -/
+theorem prune_outcome_provenance (dl : Bool) (snap : Snapshot) (evs : List Evidence) (v : Nat)
+    (hv : v ∈ pruneOutcome dl snap evs) :
+    dl = true ∧ verifyEvidence snap evs = .notAchieved ∧ v ∈ snap.vals.map (·.1) ∧ v ∉ evs.map (·.1) ∧
+    ¬ 10 * (foundShares snap (evs.map (·.1))).sum < snap.total := by
+  unfold pruneOutcome at hv
+  cases dl with
+  | false => simp at hv
+  | true =>
+    simp only [Bool.not_true, Bool.false_eq_true, if_false] at hv
+    cases hver : verifyEvidence snap evs with
+    | winnerIn ws => simp [hver] at hv
+    | notAchieved =>
+      simp only [hver] at hv
+      refine ⟨rfl, rfl, prune_only_snapshot _ _ _ hv, ?_, ?_⟩
+      · intro hin
+        exact prune_spares_attesters snap _ v hin hv
+      · intro hlt
+        rw [prune_floor_counted snap _ hlt] at hv
+        cases hv
 
 /-! ### non-vacuity -/
 example : pruneJail ⟨[(1,5),(2,5),(3,5)], 15⟩ [1] = [2, 3] := by decide
@@ -972,9 +1388,356 @@ example : evidenceAfter [(1, 7), (2, 8), (3, 9), (1, 5)] = [(1, 5), (2, 8), (3, 
 -- the 10 % floor counts every supplier once: validator 1 (1 of 20 shares = 5 %) submitting twice jails nobody
 example : pruneJail ⟨[(1,1),(2,19)], 20⟩ ((evidenceAfter [(1, 7), (1, 8)]).map (·.1)) = [] ∧
     attestedShares ⟨[(1,1),(2,19)], 20⟩ ((evidenceAfter [(1, 7), (1, 8)]).map (·.1)) = 1 := by decide
--- the queue machine: two messages; validator 1 supplies evidence for message 7 only; message 8 is pruned
--- undelivered (nobody jailed), message 7 delivered and contested (2 and 3 jailed, 1 spared)
-example : (prun [.put 7, .put 8, .evidence 7 (1, 5), .prune 8 false ⟨[(1,5),(2,5),(3,5)], 15⟩,
-                 .evidence 7 (1, 6), .prune 7 true ⟨[(1,5),(2,5),(3,5)], 15⟩]).jailed = [2, 3] := by decide
 
 end Paloma.Libcons
+
+/-! ### the world machine: both jailing mechanisms on one jailed set, over the real queue model -/
+namespace Paloma.C13
+open Paloma.Bridge (St Ckpt Op13 apply13 run13 lookupKey registerKey)
+open Paloma.Libcons (verifyEvidence addEvidence pruneOutcome pruneJail attestedShares foundShares)
+open Paloma.Queue (Item State Snap getItem setItem libSnap)
+
+/-- **queue_step_shape.** What ANY operation of the consensus-queue model can do to the queue, given
+the queue invariant (ids handed out by the counter, pairwise distinct): the invariant is kept; the
+counter does not decrease; every message of the new queue either continues a message of the old queue
+— same id, its evidence unchanged or extended by one `addEvidence` — or is fresh, with an id above the
+old counter and no evidence; and a message disappears only through `remove` of its id.
+(Derived from `qstep_shape`; a new constructor of `Paloma.Queue.Op` is handled there.) -/
+theorem queue_step_shape (s : State) (op : Paloma.Queue.Op) (hi : QInv s) :
+    QInv (Paloma.Queue.apply s op) ∧ s.nextId ≤ (Paloma.Queue.apply s op).nextId ∧
+    (∀ it' ∈ (Paloma.Queue.apply s op).queue,
+      (∃ it ∈ s.queue, it'.id = it.id ∧
+        (it'.evidence = it.evidence ∨ ∃ e, it'.evidence = addEvidence it.evidence e)) ∨
+      (s.nextId < it'.id ∧ it'.id ≤ (Paloma.Queue.apply s op).nextId ∧ it'.evidence = [])) ∧
+    (∀ it ∈ s.queue, op ≠ .remove it.id →
+      ∃ it' ∈ (Paloma.Queue.apply s op).queue, it'.id = it.id ∧
+        (it'.evidence = it.evidence ∨ ∃ e, it'.evidence = addEvidence it.evidence e)) := by
+  have h := qstep_shape s op hi
+  refine ⟨h.qinv hi, ?_, fun it' hm => h.mem hm, ?_⟩
+  · obtain ⟨_, _, _, _, hn, _⟩ := h
+    exact hn
+  · intro it hm hne
+    apply h.keeps hm
+    intro hrm
+    apply hne
+    cases op <;> simp only [removedBy, Option.some.injEq, reduceCtorEq] at hrm
+    rw [hrm]
+
+/-- **world_queue_invariant.** In every reachable world state the message ids are pairwise distinct and
+were all handed out by the id counter (so an id is never reused: `put` allocates `nextId + 1`). -/
+theorem world_queue_invariant (ops : List WOp) :
+    (∀ it ∈ (wrun ops).q.queue, it.id ≤ (wrun ops).q.nextId) ∧ ((wrun ops).q.queue.map (·.id)).Nodup :=
+  (winv_wrun ops).1
+
+/-- **world_evidence_nodup.** In every reachable world state every queue message holds at most one
+proof per validator — whatever was submitted, re-submitted, elected, reported, removed or pruned. -/
+theorem world_evidence_nodup (ops : List WOp) :
+    ∀ it ∈ (wrun ops).q.queue, (it.evidence.map (·.1)).Nodup :=
+  (winv_wrun ops).2
+
+/-- **world_projects_to_part_A.** The bridge side of every world history IS a part-A history: queue
+operations are invisible to it and a prune is an external `jail` of its victims.  Hence every
+part-A theorem (stated over all `Op13` histories, `jail` ops with arbitrary lists included) holds of
+every world history; the corollaries below spell the main ones out. -/
+theorem world_projects_to_part_A (ops : List WOp) : (wrun ops).br = run13 (trace13 World.init ops) :=
+  wrun_br ops
+
+/-- **world_open_batch_checkpoint_archived.** In every reachable world state the signing bytes of every
+open batch are archived. -/
+theorem world_open_batch_checkpoint_archived (ops : List WOp) :
+    ∀ b ∈ (wrun ops).br.batches, b.ckpt ∈ (wrun ops).br.archive := by
+  rw [wrun_br]
+  exact Paloma.Bridge.open_batch_checkpoint_archived _
+
+/-- **world_archive_grows.** An archived checkpoint stays archived under every continuation of the world
+history — queue traffic, prunes, evidence, key changes, bridge operations. -/
+theorem world_archive_grows (before after : List WOp) (c : Ckpt) (hc : c ∈ (wrun before).br.archive) :
+    c ∈ (wrun (before ++ after)).br.archive := by
+  rw [wrun_br] at hc
+  rw [wrun_br_append]
+  exact Paloma.Bridge.archive_grows _ _ c hc
+
+/-- **world_issued_checkpoint_archived_forever.** A checkpoint the chain published for signing — the
+checkpoint of a batch open after some prefix of the world history — is archived in every later state. -/
+theorem world_issued_checkpoint_archived_forever (before after : List WOp) (b : Paloma.Bridge.Batch)
+    (hb : b ∈ (wrun before).br.batches) : b.ckpt ∈ (wrun (before ++ after)).br.archive :=
+  world_archive_grows before after b.ckpt (world_open_batch_checkpoint_archived before b hb)
+
+/-- **world_genuine_confirmation_safe** (second clause of the property, on the world machine).  A
+signature over a checkpoint of a batch that was open after some prefix of the world history — built or
+re-issued after the election of a gas estimate — can never be used against its signer: as evidence it is
+refused in every later world state, whatever queue operations, prunes, evidence and key changes happened
+in between, and the world does not change. -/
+theorem world_genuine_confirmation_safe (before after : List WOp) (b : Paloma.Bridge.Batch) (key : Nat)
+    (hb : b ∈ (wrun before).br.batches) :
+    Paloma.Bridge.evidence (wrun (before ++ after)).br b.ckpt key = ((wrun (before ++ after)).br, .rejected) ∧
+    wstep (wrun (before ++ after)) (.evidence b.ckpt key) = wrun (before ++ after) := by
+  have hbr := wrun_br_append before after
+  rw [wrun_br] at hb
+  have h := Paloma.Bridge.genuine_confirmation_safe _ (trace13 (wrun before) after) b key hb
+  rw [← hbr] at h
+  refine ⟨h, ?_⟩
+  show ({ wrun (before ++ after) with
+          br := (Paloma.Bridge.evidence (wrun (before ++ after)).br b.ckpt key).1 } : World) = _
+  rw [h]
+
+/-- **world_registered_key_unique.** In every reachable world state a remote key has at most one holder. -/
+theorem world_registered_key_unique (ops : List WOp) (v w key : Nat)
+    (hv : (v, key) ∈ (wrun ops).br.keys) (hw : (w, key) ∈ (wrun ops).br.keys) : v = w := by
+  rw [wrun_br] at hv hw
+  exact Paloma.Bridge.registered_key_unique _ v w key hv hw
+
+/-- **world_key_registry_provenance.** A registry entry `(v, key)` of a reachable world state was written
+by a `register v key` op of the world history that the chain accepted. -/
+theorem world_key_registry_provenance (ops : List WOp) (v key : Nat) (h : (v, key) ∈ (wrun ops).br.keys) :
+    ∃ pre rest, ops = pre ++ .register v key :: rest ∧ (registerKey (wrun pre).br v key).2 = .ok := by
+  rw [wrun_br] at h
+  obtain ⟨p, r, he, hok⟩ := Paloma.Bridge.key_registry_provenance _ v key h
+  obtain ⟨pre, op, rest, hops, hp, h1⟩ := trace13_split ops World.init p _ r he
+  have hop := trace1_register h1
+  subst hop
+  exact ⟨pre, rest, hops, by rw [wrun_br_of_trace hp]; exact hok⟩
+
+/-- **victims_spare_suppliers.** A prune never jails a validator whose evidence the message holds. -/
+theorem victims_spare_suppliers (q : State) (it : Item) (v : Nat) (hv : v ∈ it.evidence.map (·.1)) :
+    v ∉ victims q it := by
+  unfold victims
+  split
+  · simp
+  · unfold pruneOutcome
+    split
+    · simp
+    · split
+      · simp
+      · exact Paloma.Libcons.prune_spares_attesters _ _ v hv
+
+/-- **victims_provenance.** Whom one prune jails, read off the stored state: there is a stored current
+snapshot; the message carries a delivery or error report; its evidence does not reach consensus; the
+victim is a validator of that snapshot that is not among the suppliers on record; and — for a snapshot
+that lists each validator once (ASSUMPTION, see `world_jail_provenance`) and suppliers that are distinct
+(the machine's invariant `world_evidence_nodup`) — the suppliers hold at least 10 % of the shares. -/
+theorem victims_provenance (q : State) (it : Item) (v : Nat) (hv : v ∈ victims q it)
+    (hev : (it.evidence.map (·.1)).Nodup) :
+    ∃ snap, q.env.snapshot = some snap ∧ (it.pub || it.err) = true ∧
+      verifyEvidence (libSnap snap) it.evidence = .notAchieved ∧
+      v ∈ (libSnap snap).vals.map (·.1) ∧ v ∉ it.evidence.map (·.1) ∧
+      (((libSnap snap).vals.map (·.1)).Nodup →
+        ¬ 10 * attestedShares (libSnap snap) (it.evidence.map (·.1)) < (libSnap snap).total) := by
+  unfold victims at hv
+  cases hs : q.env.snapshot with
+  | none => simp [hs] at hv
+  | some snap =>
+    simp only [hs] at hv
+    obtain ⟨hdl, hver, hin, hnot, hfl⟩ := Paloma.Libcons.prune_outcome_provenance _ _ _ v hv
+    refine ⟨snap, rfl, hdl, hver, hin, hnot, ?_⟩
+    intro hnd hlt
+    apply hfl
+    rw [Paloma.Libcons.foundShares_sum_eq' _ hnd _ hev]
+    exact hlt
+
+/-- **world_jail_provenance** (the whole property, "only if", on the world machine).  Over EVERY world
+history — bridge operations, bad-signature evidence, key registrations, every operation of the
+consensus-queue model, prunes, in any interleaving — a validator `v` is in the jailed set only if
+
+EITHER (bad-signature evidence) the history contains an `evidence c key` op such that, in the world
+state before it, `c` was not archived; `c` was not the checkpoint of a batch open after any earlier
+prefix of the history (never issued so far; see `jail_provenance` (b) for a checkpoint built and
+re-estimated inside one end-block: clause `c ∉ archive` covers it); `key` resolved to `v` in the chain's
+registry (looked up at EVIDENCE time: after a rotation it is the key's new holder, `jail_provenance`
+(a)); and that registration was written by a `register v key` op of the prefix that the chain accepted;
+
+OR (prune) the history contains a `prune id` op such that, in the world state before it, the queue held
+message `id` with a delivery or error report (`pub || err`), a current snapshot was stored, the
+message's evidence did not reach consensus under that snapshot, `v` is a validator of that snapshot, `v`
+is NOT among the suppliers of the evidence the message held, and the 10 % floor was met at full
+strength: the suppliers on record — each distinct snapshot validator counted ONCE (`attestedShares`) —
+held at least 10 % of the snapshot total.
+
+The floor is obtained from the machine's own invariant `world_evidence_nodup` through
+`foundShares_sum_eq`.  Its only hypothesis is an external ASSUMPTION: the stored snapshot lists each
+validator id once.  C10 (`Props/C10.lean: stored_each_once`) proves that of every snapshot
+`createNewSnapshot` stores, under C10's own ASSUMPTION `StakingWF` (staking states list pairwise
+distinct validators).  `Queue.Op.setEnv` lets the environment store ANY snapshot, so the hypothesis
+cannot be discharged inside this machine.
+
+Not modelled: `valset.Jail`'s own refusals (a validator holding more than 25 % of the power, the last
+active validator, an already jailed one).  The model's victim set is a superset of what staking really
+jails — the safe direction for an "only if" statement. -/
+theorem world_jail_provenance (ops : List WOp) (v : Nat) (hv : v ∈ (wrun ops).br.jailed) :
+    (∃ pre c key rest, ops = pre ++ .evidence c key :: rest ∧
+        c ∉ (wrun pre).br.archive ∧
+        (∀ pre' more b, pre = pre' ++ more → b ∈ (wrun pre').br.batches → b.ckpt ≠ c) ∧
+        lookupKey (wrun pre).br.keys key = some v ∧
+        ∃ p0 p1, pre = p0 ++ .register v key :: p1 ∧ (registerKey (wrun p0).br v key).2 = .ok) ∨
+    (∃ pre id rest it snap, ops = pre ++ .prune id :: rest ∧
+        getItem (wrun pre).q.queue id = some it ∧ (it.pub || it.err) = true ∧
+        (wrun pre).q.env.snapshot = some snap ∧
+        verifyEvidence (libSnap snap) it.evidence = .notAchieved ∧
+        v ∈ (libSnap snap).vals.map (·.1) ∧ v ∉ it.evidence.map (·.1) ∧
+        (((libSnap snap).vals.map (·.1)).Nodup →
+          ¬ 10 * attestedShares (libSnap snap) (it.evidence.map (·.1)) < (libSnap snap).total)) := by
+  rw [wrun_br] at hv
+  rcases Paloma.Bridge.jail_provenance _ v hv with
+    ⟨p, c, key, r, he, hc, hi, hl, _, p0, p1, hp0, hok⟩ | ⟨p, vs, r, he, hvs⟩
+  · left
+    obtain ⟨pre, op, rest, hops, hp, h1⟩ := trace13_split ops World.init p _ r he
+    have hop := trace1_evidence h1
+    subst hop
+    have hbr : (wrun pre).br = run13 p := wrun_br_of_trace hp
+    refine ⟨pre, c, key, rest, hops, by rw [hbr]; exact hc, ?_, by rw [hbr]; exact hl, ?_⟩
+    · intro pre' more b hpre hb
+      have hsplit : p = trace13 World.init pre' ++ trace13 (wrun pre') more := by
+        rw [← hp, hpre, trace13_append]; rfl
+      exact hi _ _ b hsplit (by rw [← wrun_br]; exact hb)
+    · rw [← hp] at hp0
+      obtain ⟨q0, op0, q1, hpre, hq0, h2⟩ := trace13_split pre World.init p0 _ p1 hp0
+      have hop0 := trace1_register h2
+      subst hop0
+      exact ⟨q0, q1, hpre, by rw [wrun_br_of_trace hq0]; exact hok⟩
+  · right
+    obtain ⟨pre, op, rest, hops, hp, h1⟩ := trace13_split ops World.init p _ r he
+    obtain ⟨id, it, hop, hg, hvs'⟩ := trace1_jail h1
+    subst hop; subst hvs'
+    have hnd := (winv_wrun pre).2 it (getItem_some hg).1
+    obtain ⟨snap, hs, hdl, hver, hin, hnot, hfloor⟩ := victims_provenance _ it v hvs hnd
+    exact ⟨pre, id, rest, it, snap, hops, hg, hdl, hs, hver, hin, hnot, hfloor⟩
+
+/-- **world_prune_floor** (last clause of the property, as a statement about every prune step).  After
+any world history, if the stored snapshot lists each validator once (ASSUMPTION: C10 `stored_each_once`
+under `StakingWF`) and fewer than 10 % of its shares attested — the shares of the distinct snapshot
+validators among the suppliers the message has on record, each counted once — then pruning the message
+jails nobody. -/
+theorem world_prune_floor (pre : List WOp) (id : Nat) (it : Item) (snap : Snap)
+    (hit : getItem (wrun pre).q.queue id = some it) (hs : (wrun pre).q.env.snapshot = some snap)
+    (hnd : ((libSnap snap).vals.map (·.1)).Nodup)
+    (hlow : 10 * attestedShares (libSnap snap) (it.evidence.map (·.1)) < (libSnap snap).total) :
+    (wstep (wrun pre) (.prune id)).br.jailed = (wrun pre).br.jailed := by
+  rw [wstep_prune_some hit]
+  have hev := (winv_wrun pre).2 it (getItem_some hit).1
+  have hvic : victims (wrun pre).q it = [] := by
+    unfold victims
+    simp only [hs]
+    unfold pruneOutcome
+    split
+    · rfl
+    · split
+      · rfl
+      · exact Paloma.Libcons.prune_floor_distinct _ _ hnd hev hlow
+  simp only [hvic, List.nil_append]
+
+/-- **world_prune_without_snapshot_or_message.** A prune jails nobody when no current snapshot is stored
+(Go: `VerifyEvidence` cannot produce a result — see `victims`), and changes nothing at all when the
+message is not in the queue (`GetMsgByID` and `DeleteJob` both fail). -/
+theorem world_prune_without_snapshot_or_message (w : World) (id : Nat) :
+    (w.q.env.snapshot = none → (wstep w (.prune id)).br.jailed = w.br.jailed) ∧
+    (getItem w.q.queue id = none → wstep w (.prune id) = w) := by
+  refine ⟨?_, fun h => wstep_prune_none h⟩
+  intro hs
+  cases hg : getItem w.q.queue id with
+  | none => rw [wstep_prune_none hg]
+  | some it =>
+    rw [wstep_prune_some hg]
+    have : victims w.q it = [] := by unfold victims; simp only [hs]
+    simp only [this, List.nil_append]
+
+/-- **world_undelivered_jails_nobody** (third clause, "undelivered").  In any world state, pruning a
+message that carries neither a delivery report nor an error report jails nobody. -/
+theorem world_undelivered_jails_nobody (w : World) (id : Nat) (it : Item)
+    (hit : getItem w.q.queue id = some it) (hp : it.pub = false) (he : it.err = false) :
+    (wstep w (.prune id)).br.jailed = w.br.jailed := by
+  rw [wstep_prune_some hit]
+  have : victims w.q it = [] := by
+    unfold victims
+    split
+    · rfl
+    · simp only [pruneOutcome, hp, he, Bool.or_self, Bool.not_false, if_true]
+  simp only [this, List.nil_append]
+
+/-- **world_supplier_never_jailed** (third clause, "contested", over whole world histories).  Validator
+`v` supplies evidence for message `id` while it is in the queue; then ANYTHING happens (`mid`: other
+messages, re-submissions by `v` or others, report flags, elections, snapshot changes, bridge traffic,
+other prunes, even removal or an earlier prune of the message itself); then the message is pruned.  That
+prune jails a set `vic` — the jailed set afterwards is `vic ++` the jailed set before — and `v ∉ vic`.
+(Invariant carried through `mid`: the id has been handed out, and every stored message with that id has
+`v` among its suppliers; ids are never reused because `put` allocates `nextId + 1`.) -/
+theorem world_supplier_never_jailed (pre mid : List WOp) (id v h : Nat)
+    (hq : (getItem (wrun pre).q.queue id).isSome) :
+    ∃ vic, (wrun (pre ++ [.queue (.addEvidence id v h)] ++ mid ++ [.prune id])).br.jailed =
+        vic ++ (wrun (pre ++ [.queue (.addEvidence id v h)] ++ mid)).br.jailed ∧ v ∉ vic := by
+  have hi0 := (winv_wrun pre).1
+  have hs1 : SupInv id v (wstep (wrun pre) (.queue (.addEvidence id v h))).q := addEv_supInv _ id v h hi0 hq
+  have hi1 := (wstep_shape (wrun pre) (.queue (.addEvidence id v h)) hi0).qinv hi0
+  have hrun : wrun (pre ++ [.queue (.addEvidence id v h)] ++ mid) =
+      mid.foldl wstep (wstep (wrun pre) (.queue (.addEvidence id v h))) := by
+    rw [wrun_append, wrun_snoc]
+  obtain ⟨_, hs2⟩ := supInv_foldl mid id v _ hi1 hs1
+  rw [← hrun] at hs2
+  rw [wrun_snoc]
+  generalize wrun (pre ++ [.queue (.addEvidence id v h)] ++ mid) = w2 at hs2 ⊢
+  cases hg : getItem w2.q.queue id with
+  | none => exact ⟨[], by rw [wstep_prune_none hg]; rfl, by simp⟩
+  | some it =>
+    obtain ⟨hm, hid⟩ := getItem_some hg
+    exact ⟨victims w2.q it, by rw [wstep_prune_some hg], victims_spare_suppliers _ it v (hs2.2 it hm hid)⟩
+
+/-- **world_jailed_cannot_register.** One jailed set: a validator jailed by a prune (or by evidence) can
+no longer register a remote key — the world does not change. -/
+theorem world_jailed_cannot_register (w : World) (v key : Nat) (h : v ∈ w.br.jailed) :
+    wstep w (.register v key) = w := by
+  show ({ w with br := (registerKey w.br v key).1 } : World) = w
+  rw [Paloma.Bridge.jailed_cannot_register w.br v key h]
+
+/-! ### non-vacuity, through `wrun` from the initial world -/
+
+def snap555 : Snap := { vals := [⟨1, 5, []⟩, ⟨2, 5, []⟩, ⟨3, 5, []⟩], total := 15 }
+def snapLow : Snap := { vals := [⟨1, 1, []⟩, ⟨2, 19, []⟩], total := 20 }
+
+/-- two messages, a stored snapshot, validator 1 supplies evidence for message 1 (twice) -/
+def demoQ : List WOp :=
+  [ .queue (.put .slc 7 1 1 4 false), .queue (.put .slc 8 1 2 4 false),
+    .queue (.setEnv { snapshot := some snap555 }),
+    .queue (.addEvidence 1 1 77), .queue (.addEvidence 1 1 78) ]
+
+-- (i) message 1 gets an error report and is pruned: exactly the non-suppliers of the snapshot are
+-- jailed, validator 1 is spared; message 2 stays; the message held ONE proof of validator 1
+example : (wrun demoQ).q.queue.map (fun it => (it.id, it.evidence)) = [(1, [(1, 78)]), (2, [])] ∧
+    (wrun (demoQ ++ [.queue (.setError 1), .prune 1])).br.jailed = [2, 3] ∧
+    (wrun (demoQ ++ [.queue (.setError 1), .prune 1])).q.queue.map (·.id) = [2] := by decide
+-- (ii) the same message without any report (undelivered): nobody is jailed, the message is removed
+example : (wrun (demoQ ++ [.prune 1])).br.jailed = [] ∧
+    (wrun (demoQ ++ [.prune 1])).q.queue.map (·.id) = [2] := by decide
+-- (iii) below the 10 % floor (validator 1 holds 1 of 20 shares under the snapshot current at prune
+-- time): nobody is jailed although the message was reported and contested
+example : (wrun (demoQ ++ [.queue (.setEnv { snapshot := some snapLow }), .queue (.setPublic 1), .prune 1])).br.jailed = [] := by
+  decide
+-- no stored snapshot / unknown message: nothing happens
+example : (wrun [.queue (.put .slc 7 1 1 4 false), .queue (.addEvidence 1 1 77), .queue (.setError 1), .prune 1]).br.jailed = [] ∧
+    (wrun (demoQ ++ [.prune 9])).q.queue.map (·.id) = [1, 2] := by decide
+
+def snap345 : Snap := { vals := [⟨3, 5, []⟩, ⟨4, 5, []⟩, ⟨5, 5, []⟩], total := 15 }
+
+/-- (iv) both mechanisms on one jailed set: a bridge history (fund, send, build, end-block electing an
+estimate) interleaved with queue traffic and a prune that jails validators 4 and 5 -/
+def demoW : List WOp :=
+  [ .register 3 33, .register 4 44,
+    .bridge (.fund 1 1 100), .queue (.put .slc 7 1 3 4 false),
+    .bridge (.send Paloma.Bridge.Fault.none 1 1 10 5),
+    .queue (.setEnv { snapshot := some snap345 }),
+    .bridge (.build Paloma.Bridge.Fault.none 1 1000),
+    .queue (.addEvidence 1 3 77), .queue (.setPublic 1),
+    .bridge (.endBlock Paloma.Bridge.Fault.none 7 1001 [1] [(1, 1, 21000)]),
+    .prune 1 ]
+
+example : (wrun demoW).br.jailed = [4, 5] ∧
+    (wrun demoW).br.archive = [(1, 1, 21000, 0), (1, 1, 0, 0)] ∧
+    ((wrun demoW).br.batches.map Paloma.Bridge.Batch.ckpt) = [(1, 1, 21000, 0)] ∧
+    -- replayed genuine confirmations (re-issued and build-time checkpoint) by key 33 of validator 3: refused
+    (wrun (demoW ++ [.evidence (1, 1, 21000, 0) 33, .evidence (1, 1, 0, 0) 33])).br.jailed = [4, 5] ∧
+    -- a forged variant jails the holder of the key — into the same set
+    (wrun (demoW ++ [.evidence (1, 1, 21000, 1) 33])).br.jailed = [3, 4, 5] ∧
+    -- validator 4, jailed by the prune, can no longer register a key; validator 3 still can
+    (wrun (demoW ++ [.register 4 45, .register 3 35])).br.keys = [(3, 35), (4, 44)] ∧
+    -- evidence against the key of the prune-jailed validator 4 changes nothing (already jailed)
+    (wrun (demoW ++ [.evidence (1, 1, 21000, 1) 44])).br.jailed = [4, 5] := by decide
+
+end Paloma.C13
